@@ -109,6 +109,7 @@ fn mk(k: usize, id: u64, c0: Ty<VI>, c1: Ty<VI>) -> Ty<VI> {
         9 => TyKind::FnDef(FnDefId(did(id)), args),
         12 => TyKind::Closure(ClosureId(did(id)), args),
         5 => TyKind::Slice(c0),
+        7 => TyKind::Raw(Mutability::Not, c0),
         _ => TyKind::Raw(Mutability::Mut, c0),
     })
 }
@@ -137,12 +138,12 @@ fn step(k1: usize, k2: usize, same_id: bool, same_c0: bool, same_c1: bool) {
     let mut n2 = 0usize;
     assert!(inst(&t2, &r, 2, &mut vars2, &mut n2), "C17: a merged answer is not an instance of the aggregate");
     // precision at the top: agreeing constructor and id are kept
-    let keeps_top = k1 == k2 && (same_id || matches!(k1, 3 | 5 | 6));
+    let keeps_top = k1 == k2 && (same_id || matches!(k1, 3 | 5 | 6 | 7));
     if keeps_top {
         assert!(!matches!(r.kind(I), TyKind::InferenceVar(..)), "C17: aggregate lost an agreeing constructor");
         // agreeing children are kept, disagreeing ones become exactly one fresh variable each
         let expect_vars = match k1 {
-            5 | 6 => (!same_c0) as usize,
+            5 | 6 | 7 => (!same_c0) as usize,
             _ => (!same_c0) as usize + (!same_c1) as usize,
         };
         assert!(n == expect_vars, "C17: aggregate generalises an agreeing position or reuses a variable");
@@ -226,6 +227,7 @@ fn leaf_step(la: usize, lb: usize, same: bool) {
             0 => TyKind::Foreign(ForeignDefId(did(if same || !second { x } else { x ^ 1 }))),
             1 => TyKind::Scalar(if same || !second { Scalar::Uint(UintTy::U8) } else { Scalar::Int(IntTy::I32) }),
             2 => TyKind::Placeholder(if same || !second { ph } else { PlaceholderIndex { ui: ph.ui, idx: ph.idx ^ 1 } }),
+            3 => TyKind::Placeholder(if !second { ph } else { PlaceholderIndex { ui: UniverseIndex { counter: ph.ui.counter ^ 1 }, idx: ph.idx } }),
             4 => TyKind::BoundVar(BoundVar::new(DebruijnIndex::INNERMOST, 0)),
             5 => TyKind::Error,
             6 => TyKind::Str,
@@ -266,6 +268,7 @@ sharness!(c17_q_anti_leaf_scalar_diff, 8, { leaf_step(1, 1, false) });
 sharness!(c17_t_anti_leaf_scalar_same, 8, { leaf_step(1, 1, true) });
 sharness!(c17_q_anti_leaf_placeholder_diff, 8, { leaf_step(2, 2, false) });
 sharness!(c17_t_anti_leaf_placeholder_same, 8, { leaf_step(2, 2, true) });
+sharness!(c17_q_anti_leaf_placeholder_diff_universe, 8, { leaf_step(3, 3, false) });
 sharness!(c17_q_anti_leaf_boundvar, 8, { leaf_step(4, 4, true) });
 sharness!(c17_t_anti_leaf_foreign_vs_scalar, 8, { leaf_step(0, 1, true) });
 sharness!(c17_t_anti_leaf_str_vs_never, 8, { leaf_step(6, 7, true) });
@@ -291,4 +294,6 @@ steps! {
     c17_t_anti_opaque_same_diff_diff: 8, 8, true, false, false;
     c17_t_anti_slice_same: 5, 5, true, true, true;
     c17_t_anti_slice_vs_raw: 5, 6, true, true, true;
+    c17_q_anti_raw_const_vs_mut: 7, 6, true, true, true;
+    c17_t_anti_raw_mut_vs_const_diff_pointee: 6, 7, true, false, true;
 }
